@@ -366,7 +366,6 @@ def level1_configs(tier):
         add(2, 2, 1, revs=(True,), fragment=True)
         add(3, 3, 1, revs=(True,), dp="2")
         add(2, 1, 2)
-        add(3, 1, 2, revs=(False,), dp="1/2")
         add(2, 2, 2, revs=(True,), seed_order="asc")
         add(2, 1, 3, revs=(False,), sj="0", seed_order="asc")
         add(2, 1, 3, revs=(True,), seed_order="desc")
@@ -376,6 +375,7 @@ def level1_configs(tier):
         add(3, 3, 1)
         add(4, 3, 1, revs=(False,), fragment=True)
         add(3, 1, 2)
+        add(3, 1, 2, revs=(False,), dp="1/2")
         add(2, 2, 2)
         add(3, 2, 2, revs=(False,), dp="2", seed_order="asc")
         add(2, 1, 3, sj="0")
@@ -402,7 +402,7 @@ def level1_unit(prop):
         name="level1-Aligner.align", body=make_body(prop), configs=level1_configs,
         shard_depth=lambda cfg, tier: 24 if cfg["NP"] * cfg["KR"] * cfg["KQ"] >= 4 else None,
         functions=LEVEL1_FUNCTIONS,
-        bounds="whole Aligner.align on K_R x K_Q labels with N seeds: quick 2x2/1, 3x2/1 (fragment with label offset), 3x3/1, 2x1/2, 3x1/2, "
+        bounds="whole Aligner.align on K_R x K_Q labels with N seeds: quick 2x2/1, 3x2/1 and 2x2/1 as fragments with a label offset, 3x3/1, 2x1/2, "
                "2x2/2 and 2x1/3 (seed positions given in ascending or descending order); thorough 3x3/1, 4x3/1, 3x1/2, 2x2/2, 2x1/3 in any "
                "seed order, 3x2/2, 3x1/3, 2x2/3 with ascending seeds under the wall-clock budget (non-exhaustive if it ends first); label "
                "coordinates, seed positions, perfectMatchScore, unmatchedPenalty <= 0, minScore > 0, breakSegmentThreshold >= 0, "
